@@ -1209,7 +1209,7 @@ def _dialect_quotes(ctx, m):
     return ini, fin
 
 
-@R.rule("C06-R8", floor=10, template="T-TABLE (reader/writer agreement, regex structure)",
+@R.rule("C06-R8", floor=8, template="T-TABLE (reader/writer agreement, regex structure)",
         desc="every regular expression of a dialect's reflection code that reads a quoted identifier back out of SQL text "
              "(`<quote> body <quote>` with the dialect's own quote character among the opening delimiters) agrees "
              "with the preparer that wrote it: the closing delimiter is tied to the opening one (same literal pair "
